@@ -217,6 +217,26 @@ static void work_f(long lo, long hi, struct res *r, void *arg) {
     if (r->nsample < 1 && lo < hi) res_sample(r, "16 x \"%s\" (accepted by %d word lists)", SHT[lo % NSH], SHN[lo % NSH]);
 }
 
+/* (g) line terminators and control characters: alone (what fgets returns for an empty line), around a valid phrase, between words */
+static void work_g(long lo, long hi, struct res *r, void *arg) {
+    (void)arg;
+    static const char *CT[] = { "\n", "\r", "\r\n", "\t", "\v", "\f", "\x01", "\x7f", " \n", "\n ", "\n\n", "\r\r\n" };
+    const int NCT = (int)(sizeof CT / sizeof *CT);
+    for (long x = lo; x < hi; x++) {
+        int c = (int)(x % NCT), shape = (int)((x / NCT) % 5), li = (int)(x / NCT / 5) % R_NLANG; char s[PSTR + 64]; size_t len = 0;
+        const char *ph = PRE[li][2]; size_t pl = strlen(ph);
+        switch (shape) {
+        case 0: strcpy(s, CT[c]); len = strlen(s); break;                                                       /* alone */
+        case 1: memcpy(s, ph, pl); strcpy(s + pl, CT[c]); len = pl + strlen(CT[c]); break;                       /* after a 16-token phrase */
+        case 2: strcpy(s, CT[c]); memcpy(s + strlen(CT[c]), ph, pl + 1); len = pl + strlen(CT[c]); break;        /* in front of it */
+        case 3: { const char *sp = strchr(ph, ' '); size_t k = sp ? (size_t)(sp - ph) : 0; memcpy(s, ph, k); strcpy(s + k, CT[c]); strcpy(s + k + strlen(CT[c]), ph + k + 1); len = strlen(s); } break;   /* instead of the first separator */
+        case 4: { const char *sp = strchr(ph, ' '); size_t k = sp ? (size_t)(sp - ph) : 0; memcpy(s, ph, k + 1); strcpy(s + k + 1, CT[c]); strcpy(s + k + 1 + strlen(CT[c]), ph + k + 1); len = strlen(s); } break;   /* next to it */
+        }
+        feed(s, len, r, (uint64_t)x + (5ull << 40), shape == 0);
+    }
+    if (r->nsample < 1 && lo < hi) res_sample(r, "LF, CR, CRLF, TAB, VT, FF, 01, 7F alone, before / after / inside a valid phrase of each language");
+}
+
 int main(int argc, char **argv) {
     int a = common_args(argc, argv);
     ref_init(VERIF_ROOT); sec_mark_initial(); env_init(); inject(0); polyseed_enable_features(7);
@@ -241,6 +261,7 @@ int main(int argc, char **argv) {
     memset(r, 0, sizeof *r); par_run(nb * 3 * R_NLANG, work_b, NULL, r); out_part("b: valid 14-, 15- and 16-token phrases of every language + every tail", r, CLS, "");
     memset(r, 0, sizeof *r); par_run(7L * 4680, work_c, NULL, r); out_part("c: boundary-length families", r, CLS, "");
     memset(r, 0, sizeof *r); par_run(1920, work_d, NULL, r); out_part("d: well-formed phrases with each of the 32 feature values, every language, three enabled masks", r, CLS, "");
+    memset(r, 0, sizeof *r); par_run(12L * 5 * R_NLANG, work_g, NULL, r); out_part("g: line terminators and control characters", r, CLS, "");
     memset(r, 0, sizeof *r); par_run((long)NSH * 4, work_f, NULL, r); out_part("f: 16 abbreviations that 2 to 6 word lists accept at once", r, CLS, "every number of simultaneously matching languages");
     memset(r, 0, sizeof *r); par_run(14, work_e, NULL, r); out_part("e: strings of 2^31 and 2^32 bytes and their neighbours", r, CLS, "lengths that do not fit an int / unsigned");
     out_kv_int("alphabet", 9); out_kv_int("max_len_a", LMAX); out_kv_int("max_tail_b", LB);
